@@ -136,8 +136,24 @@ for db in payload['dbs']:
                         conv = {p: {('' if k is None else k.rsplit('-', 1)[1]): fl(v) for k, v in d.items()}
                                 for p, d in fr.items()}
                         synres = {tok: [idx(x) for x in w.synsets(tok)] for tok in sorted(set(job['corpus']))}
-                        rec['ic'].append(['ok', conv, synres, list(fr)])
+                        icv = {}
+                        for i in range(1, n + 1):
+                            r2 = call(wn.ic.information_content, ss[i], fr)
+                            icv[i] = [r2[0], fl(r2[1])]
+                        rec['ic'].append(['ok', conv, synres, list(fr), icv])
                     else:
                         rec['ic'].append(r_)
+            if 'ic' in want and g.get('ic_load'):
+                import os, tempfile
+                fd, pth = tempfile.mkstemp(dir='/dev/shm', suffix='.dat')
+                with os.fdopen(fd, 'w') as fh:
+                    fh.write(g['ic_load'])
+                r_ = call(wn.ic.load, pth, w, get_synset_id=lambda offset, pos, _l=lid: '%s-%d' % (_l, offset))
+                os.unlink(pth)
+                if r_[0] == 'ok':
+                    rec['ic_load'] = ['ok', {p: {('' if k is None else k.rsplit('-', 1)[1]): fl(v) for k, v in d.items()}
+                                             for p, d in r_[1].items()}]
+                else:
+                    rec['ic_load'] = r_
             out.append(rec)
 json.dump(out, sys.stdout)
